@@ -137,7 +137,7 @@ func (c *caseT) mismatch(what string, x *execT, got [][]string) string {
 	return sb.String()
 }
 
-var joinLookupSelectRe = regexp.MustCompile(`(?s)(Times|Join|LeftJoin)\)\.Select.*(Join|LeftJoin)\)\.Lookup`)
+var joinLookupSelectRe = regexp.MustCompile(`(?s)\)\.Select\(.*(Join|LeftJoin)\)\.Lookup`)
 var tableLookupNoSelsRe = regexp.MustCompile(`\(\*Table\)\.Lookup\([^\n]*\{0x0, 0x0, 0x0\}\)`)
 
 var disjointLookupRe = regexp.MustCompile(`union-disjoint\([a-z0-9_]*\)( |\)|$)`)
@@ -183,6 +183,8 @@ func (c *caseT) knownCrash(rec *ev.Rec, prop string, err *engineErr, strat strin
 	case err.Error() == "ASSERT FAILED" && strings.Contains(err.stack, "query.selEnd") &&
 		strings.Contains(err.stack, "Union).Select") && c.usesEmptyKeyTable():
 		key = "union-select-emptykey-source"
+	case strings.HasPrefix(err.Error(), "rename: ") && strat == "" && c.hasOp("rename") && strings.Contains(err.stack, ").Transform"):
+		key = "rename-chain-transform"
 	case err.Error() == "cannot do math on String literal" && strat == "" && strings.Contains(err.stack, "query.replaceExpr"):
 		key = "transform-folds-empty-literal-math"
 	case (strings.HasPrefix(err.Error(), "Sels.Get can't find") || err.Error() == "ASSERT FAILED" || err.Error() == "selOrg not full") &&
@@ -325,4 +327,31 @@ func (c *caseT) knownCase(rec *ev.Rec, prop string) bool {
 		check("summarize-wholerow-after-project", wholeRowFlips(c.tq.q, false)) ||
 		check("unique-index-empty-value", c.emptyUniqueRow()) ||
 		check("or-with-empty-range", orWithEmptyTerm(c.tq.q))
+}
+
+// hasIn: some where of the query has an `in` with at least two values.
+func hasIn(q *qnode) bool {
+	found := false
+	var inExpr func(e *exprT)
+	inExpr = func(e *exprT) {
+		if e.op == "in" && len(e.args) > 2 {
+			found = true
+		}
+		for _, a := range e.args {
+			inExpr(a)
+		}
+	}
+	var rec func(n *qnode)
+	rec = func(n *qnode) {
+		n.walk(func(m *qnode) {
+			if m.op == "where" {
+				inExpr(m.expr)
+			}
+			if m.op == "view" {
+				rec(m.viewOf)
+			}
+		})
+	}
+	rec(q)
+	return found
 }
